@@ -11,6 +11,8 @@ import OFV.Proofs.C13
 import OFV.Proofs.C13Shape
 import OFV.Proofs.C13Grid
 import OFV.Proofs.C13Diag
+import OFV.Proofs.C13Sound
+import Mathlib.Tactic.NormNum
 
 namespace OFV.C13
 open OFV.Model OFV.Model.C13 OFV.Spec OFV.Spec.C13 OFV.Model.C13.Lattice
@@ -161,6 +163,53 @@ theorem mean_field_dwave_conserves_sz (tol : Rat) (a : HubbardArgs) :
 theorem fermi_hubbard_model_conserves_number (tol : Rat) (m : FHM) :
     Conserves (fun _ => 1) (m.hamiltonian tol) :=
   conserves_fhm m (fun _ _ => rfl)
+
+/-! ### operator-level soundness (dictionary semantics `den φ A = Σ c · φ τ` of C01)
+
+`ExactSum tol [] pieces`: every `+=` of the site loop is in the exact regime (an intermediate coefficient is
+negligible only if it is zero) — it holds for the dyadic couplings the harness generates. -/
+
+/-- the site loop of `_spinless_fermi_hubbard_model` is the left fold of `+=` over the per-site pieces -/
+theorem spinless_fermi_hubbard_is_fold (tol : Rat) (a : HubbardArgs) :
+    spinlessFermiHubbard tol a = sumOps tol ((List.range (a.x * a.y)).flatMap (spinlessPieces tol a)) [] :=
+  spinless_eq_sumOps tol a
+
+/-- **hubbard_sound** (spinless `fermi_hubbard`; all lattice sizes, both boundary conditions, particle-hole flag
+allowed): for every term functional `φ` whose bond contribution is orientation independent, the Model's output
+denotes the sum over the *Spec edge set* of (hopping + repulsion) plus the chemical-potential terms -/
+theorem spinless_hubbard_sound_edges (tol : Rat) (φ : Term → GQ) (a : HubbardArgs)
+    (hex : ExactSum tol [] ((List.range (a.x * a.y)).flatMap (spinlessPieces tol a)))
+    (hsym : ∀ i j, bondDen tol φ a (i, j) = bondDen tol φ a (j, i)) :
+    den φ (spinlessFermiHubbard tol a) =
+      gsumL ((edges adjNN a.x a.y a.periodic).map (bondDen tol φ a)) +
+      gsumL ((List.range (a.x * a.y)).map fun s => den φ (numberOp .fermion s (-a.mu))) :=
+  spinless_den_spec_edges tol φ a hex hsym
+
+/-- **hubbard_sound, docstring form**: `H = -t Σ_⟨ij⟩ (a†_i a_j + a†_j a_i) + U Σ_⟨ij⟩ n_i n_j - μ Σ_i n_i` over the Spec
+edge set, for a real hopping amplitude and every `φ` with `φ(n_i n_j) = φ(n_j n_i)` (every matrix element) -/
+theorem spinless_hubbard_sound (tol : Rat) (φ : Term → GQ) (a : HubbardArgs) (hphs : a.phs = false)
+    (hex : ExactSum tol [] ((List.range (a.x * a.y)).flatMap (spinlessPieces tol a)))
+    (ht : a.t.conj = a.t) (hreg : GQ.isSmall tol (-a.t) = true → -a.t = 0)
+    (hφ : ∀ i j, φ [(i, 1), (i, 0), (j, 1), (j, 0)] = φ [(j, 1), (j, 0), (i, 1), (i, 0)]) :
+    den φ (spinlessFermiHubbard tol a) =
+      gsumL ((edges adjNN a.x a.y a.periodic).map fun e =>
+        (-a.t) * φ [(e.1, 1), (e.2, 0)] + (-a.t) * φ [(e.2, 1), (e.1, 0)] + a.u * φ [(e.1, 1), (e.1, 0), (e.2, 1), (e.2, 0)]) +
+      gsumL ((List.range (a.x * a.y)).map fun s => (-a.mu) * φ [(s, 1), (s, 0)]) :=
+  spinless_hubbard_sound' tol φ a hphs hex ht hreg hφ
+
+/-- non-vacuity of the exact-regime hypothesis: the 1 × 1 lattice with `μ = 1` -/
+example : ExactSum (1 / 100000000) []
+    ((List.range (1 * 1)).flatMap (spinlessPieces (1 / 100000000) ⟨1, 1, 1, 1, 1, 0, false, false⟩)) := by
+  have h : (List.range (1 * 1)) = [0] := by decide
+  rw [h]
+  simp only [List.flatMap_cons, List.flatMap_nil, List.append_nil, spinlessPieces, siteBonds, siteNeighbors,
+    rightNeighbor, bottomNeighbor]
+  refine ⟨⟨?_, trivial⟩, trivial⟩
+  intro hs
+  exfalso
+  revert hs
+  simp [Dict.getD, Dict.get?, GQ.isSmall, GQ.normSq, simplify]
+  norm_num
 
 /-! ### Grid index arithmetic -/
 
